@@ -186,7 +186,7 @@ func (c *c01) DumpCase(seed uint64, idx int) []Case {
 			base.Kind = "corpus-noise"
 		}
 		base.Extra = map[string]any{"nfaults": faultCount(r, idx < len(cp.roots)), "fseed": r.n(1 << 30)}
-		if idx >= len(cp.roots) && r.chance(120) {
+		if idx >= len(cp.roots) && r.chance(200) {
 			base.Extra["history"] = c.historyProjects(r)
 		}
 		return []Case{base}
@@ -206,6 +206,12 @@ func (c *c01) DumpCase(seed uint64, idx int) []Case {
 		if !cfg.RuleFuzz && r.chance(120) {
 			cfg.PathRuleFuzz = true
 		}
+		if r.chance(60) {
+			cfg.RecursiveOr = true
+		}
+		if r.chance(150) {
+			cfg.RPC = true
+		}
 		switch r.n(11) {
 		case 10:
 			cfg.MacroLadder = 8 + r.n(28)
@@ -219,6 +225,13 @@ func (c *c01) DumpCase(seed uint64, idx int) []Case {
 			cfg.Deep = 30 + r.n(200)
 		case 3:
 			cfg.BadTypes, cfg.BadEnums = r.n(3), r.n(3)
+		}
+		if idx == c.nCorpus+1 || r.chance(2) {
+			// nesting far beyond what anybody writes by hand (and beyond what encoding/json serialises)
+			cfg.Abyss = []int{600, 2500, 5200, 5201, 12000}[r.n(5)]
+			if idx == c.nCorpus+1 {
+				cfg.Abyss = 5200
+			}
 		}
 		if idx == c.nCorpus || (cfg.MacroLadder > 0 && r.chance(3)) {
 			// the ladder pasted from its top: k small macros, 2^k directives
@@ -236,7 +249,7 @@ func (c *c01) DumpCase(seed uint64, idx int) []Case {
 			base.Project = lineNoise(&base.Project, r)
 		}
 		base.Extra = map[string]any{"nfaults": faultCount(r, r.chance(200)), "fseed": r.n(1 << 30), "mutual": cfg.MutualMacros}
-		if !cfg.LadderTop && r.chance(120) {
+		if !cfg.LadderTop && r.chance(200) {
 			base.Extra["history"] = c.historyProjects(r)
 		}
 		respellRoot(&base.Project, r)
@@ -548,6 +561,9 @@ func (c *c01) judge(cs *Case, r *Result, plan []simrt.PlannedFault) *Case {
 		}
 	}
 	if r.Accepted && r.SerErr != "" {
+		if strings.Contains(r.SerErr, "exceeded max depth") {
+			return mk("serialise-failed", "encoding/json:exceeded-max-depth", "accepted project could not be serialised: "+trunc(r.SerErr, 200)+" ... "+r.SerErr[len(r.SerErr)-clampInt(120, 0, len(r.SerErr)):])
+		}
 		return mk("serialise-failed", normPanicMsg(r.SerErr), "accepted project could not be serialised: "+r.SerErr)
 	}
 	if r.Accepted && (!json.Valid([]byte(r.JSON)) || !json.Valid([]byte(r.JSONIndent))) {
@@ -839,9 +855,31 @@ func (c *c01) historyProjects(r *rng) []Project {
 		cfg.RecursiveMacros, cfg.UnusedPathParams, cfg.BadTypes, cfg.BadEnums = r.n(3), r.n(3), r.n(3), r.n(3)
 		d := generateDoc(r, cfg)
 		single, multi, _ := cutProject(d, r, "/sim/hist/api", 3)
-		if r.chance(500) {
+		if r.chance(400) {
 			out = append(out, single)
 		} else {
+			if r.chance(500) {
+				// one of its files was cut short when this process read it (saved half-way)
+				files := sortedKeys(multi.Files)
+				f := files[r.n(len(files))]
+				c := multi.content(f)
+				if len(c) > 0 {
+					cut := r.n(len(c))
+					if r.chance(600) {
+						// ... at the end of a line, the line break not yet written
+						var ends []int
+						for i, b := range c {
+							if b == '\n' && i > 0 {
+								ends = append(ends, i)
+							}
+						}
+						if len(ends) > 0 {
+							cut = ends[r.n(len(ends))]
+						}
+					}
+					multi.set(f, c[:cut])
+				}
+			}
 			out = append(out, multi)
 		}
 	}
